@@ -13,6 +13,7 @@ package authz
 // The standard headers of every denial are the two no-cache directives (C13). Established by the
 // package initialiser; no function under contract writes the variable or the objects it refers to.
 //@ invariant stdhdrs: len(deref(standardResponseHeaders)) == 2 && HdrIs(deref(standardResponseHeaders)[0], "cache-control", "no-cache") && HdrIs(deref(standardResponseHeaders)[1], "pragma", "no-cache")
+//@ invariant stdalloc: HdrAllocated(deref(standardResponseHeaders)[0]) && HdrAllocated(deref(standardResponseHeaders)[1])
 
 // ---------------------------------------------------------------------------------------------
 // response builders
@@ -29,6 +30,7 @@ package authz
 //@   ensures  fresh: result != nil && fresh(result)
 //@   ensures  shape: result.Status == nil && result.Body == ""
 //@   ensures  nocache: len(result.Headers) == 2 && StdHdrs(result.Headers)
+//@   ensures  allocd: HdrAllocated(result.Headers[0]) && HdrAllocated(result.Headers[1])
 
 //@ func setRedirect
 //@   requires deny != nil
@@ -124,6 +126,14 @@ package authz
 //@   requires wf: HandlerOK(o) && resp != nil && tokens != nil
 //@   modifies resp.HttpResponse, resp.Status, resp.GetOkResponse().Headers
 //@   ensures  ok: resp.Status != nil && fresh(resp.Status) && resp.Status.Code == 0 && IsOk(resp) && OkOf(resp) != nil
+//@   ensures  kept: len(OkOf(resp).Headers) >= len(old(resp.GetOkResponse().GetHeaders())) && forall i int :: 0 <= i && i < len(old(resp.GetOkResponse().GetHeaders())) ==> OkOf(resp).Headers[i] == old(resp.GetOkResponse().GetHeaders())[i]
+//@   ensures  only_tokens: forall i int :: len(old(resp.GetOkResponse().GetHeaders())) <= i && i < len(OkOf(resp).Headers) ==> FwdHdr(OkOf(resp).Headers[i], o.config, tokens)
+//@   loop 1 invariant kept: len(ok.Headers) >= len(old(resp.GetOkResponse().GetHeaders())) && forall i int :: 0 <= i && i < len(old(resp.GetOkResponse().GetHeaders())) ==> ok.Headers[i] == old(resp.GetOkResponse().GetHeaders())[i]
+//@   loop 1 invariant only: forall i int :: len(old(resp.GetOkResponse().GetHeaders())) <= i && i < len(ok.Headers) ==> HdrFrom(ok.Headers[i], $rangemap)
+//@   ensures  id_forwarded: !(FwdAccess(o.config, tokens.AccessToken) && AccHdr(o.config) == IdHdr(o.config)) ==> exists i int :: len(old(resp.GetOkResponse().GetHeaders())) <= i && i < len(OkOf(resp).Headers) && HdrIs(OkOf(resp).Headers[i], IdHdr(o.config), Enc(o.config.GetIdToken().GetPreamble(), tokens.IDToken))
+//@   ensures  access_forwarded: FwdAccess(o.config, tokens.AccessToken) ==> exists i int :: len(old(resp.GetOkResponse().GetHeaders())) <= i && i < len(OkOf(resp).Headers) && HdrIs(OkOf(resp).Headers[i], AccHdr(o.config), Enc(o.config.GetAccessToken().GetPreamble(), tokens.AccessToken))
+//@   loop 1 invariant all: forall k string :: $visited[k] ==> exists i int :: len(old(resp.GetOkResponse().GetHeaders())) <= i && i < len(ok.Headers) && HdrIs(ok.Headers[i], k, $rangemap[k])
+//@   loop 1 invariant okobj: ok != nil && (ok == old(resp.GetOkResponse()) || fresh(ok))
 
 // ---------------------------------------------------------------------------------------------
 // refresh (C11), login redirect (C05, C13), callback (C02, C04), the decision ladder (C01, C09)
@@ -151,6 +161,11 @@ package authz
 //@   ensures  old_sid: oldSessionID != "" ==> !View[StoreFor(o.sessions, o.config).pay][oldSessionID].present || (NGen == old(NGen) && View[StoreFor(o.sessions, o.config).pay][oldSessionID] == old(View)[StoreFor(o.sessions, o.config).pay][oldSessionID] && IsSessionError(resp))
 //@   ensures  new_sid: NGen != old(NGen) ==> NGen == old(NGen) + 1 && !old(Issued)[LastSid] && Issued == store(old(Issued), LastSid, true) && !HoldsTok(View[StoreFor(o.sessions, o.config).pay][LastSid])
 //@   ensures  no_gen: NGen == old(NGen) ==> Issued == old(Issued) && LastSid == old(LastSid) && OnlySid(old(View), View, StoreFor(o.sessions, o.config).pay, oldSessionID)
+//@   ensures  redirect: !IsSessionError(resp) ==> NGen == old(NGen) + 1 && RedirectShape(DeniedOf(resp), 4) && HdrIs(DeniedOf(resp).Headers[3], "set-cookie", CookieSpec(CookieNameOf(o.config), LastSid, 0 - 1))
+//@   ensures  location: !IsSessionError(resp) ==> AuthLocation(HdrVal(DeniedOf(resp).Headers[2]), o.config, View[StoreFor(o.sessions, o.config).pay][LastSid].auth.state, View[StoreFor(o.sessions, o.config).pay][LastSid].auth.nonce, S256(View[StoreFor(o.sessions, o.config).pay][LastSid].auth.verifier))
+//@   ensures  login_state: !IsSessionError(resp) ==> HoldsAuth(View[StoreFor(o.sessions, o.config).pay][LastSid]) && View[StoreFor(o.sessions, o.config).pay][LastSid].auth.url == RequestedURL(httpRequest)
+//@   ensures  error_shape: IsSessionError(resp) ==> DeniedOf(resp).Status == nil && len(DeniedOf(resp).Headers) == 0
+//@   ensures  deny_content: IsSessionError(resp) || LoginRedirect(DeniedOf(resp), o.config, View[StoreFor(o.sessions, o.config).pay][LastSid].auth, LastSid)
 
 //@ func (*oidcHandler).retrieveTokens
 //@   requires wf: HandlerOK(o) && log != nil && resp != nil && o.httpClient != nil
@@ -164,6 +179,9 @@ package authz
 //@   ensures  exchange_request: IdP.n != old(IdP.n) ==> IdP.uri == o.config.GetTokenUri() && AuthCodeForm(IdP.sent, UrlQueryGet(QueryOnly(req.GetAttributes().GetRequest().GetHttp().GetPath()), "code"), o.config.GetCallbackUri(), old(View)[StoreFor(o.sessions, o.config).pay][sessionID].auth.verifier) && BasicHdrs(IdP.hdrs, o.config.GetClientId(), o.config.GetClientSecret())
 //@   ensures  bind: HoldsTok(View[StoreFor(o.sessions, o.config).pay][sessionID]) && !(HoldsTok(old(View)[StoreFor(o.sessions, o.config).pay][sessionID]) && View[StoreFor(o.sessions, o.config).pay][sessionID].tok == old(View)[StoreFor(o.sessions, o.config).pay][sessionID].tok) ==> IdP.n == old(IdP.n) + 1 && IdP.status == 200 && LoginTok(View[StoreFor(o.sessions, o.config).pay][sessionID].tok, IdP.body) && Validated(o.config, View[StoreFor(o.sessions, o.config).pay][sessionID].tok.id) && NonceIs(View[StoreFor(o.sessions, o.config).pay][sessionID].tok.id, old(View)[StoreFor(o.sessions, o.config).pay][sessionID].auth.nonce)
 //@   ensures  consumed: HoldsTok(View[StoreFor(o.sessions, o.config).pay][sessionID]) && !(HoldsTok(old(View)[StoreFor(o.sessions, o.config).pay][sessionID]) && View[StoreFor(o.sessions, o.config).pay][sessionID].tok == old(View)[StoreFor(o.sessions, o.config).pay][sessionID].tok) ==> !HoldsAuth(View[StoreFor(o.sessions, o.config).pay][sessionID])
+//@   ensures  deny_content: PlainDeny(DeniedOf(resp)) || IsSessionError(resp) || OopsDeny(DeniedOf(resp)) || BackRedirect(DeniedOf(resp), old(View)[StoreFor(o.sessions, o.config).pay][sessionID].auth.url)
+//@   ensures  redirect_back: NewlyBound(old(View)[StoreFor(o.sessions, o.config).pay][sessionID], View[StoreFor(o.sessions, o.config).pay][sessionID]) && !IsSessionError(resp) ==> RedirectShape(DeniedOf(resp), 3) && HdrVal(DeniedOf(resp).Headers[2]) == old(View)[StoreFor(o.sessions, o.config).pay][sessionID].auth.url
+//@   ensures  login_expiry: NewlyBound(old(View)[StoreFor(o.sessions, o.config).pay][sessionID], View[StoreFor(o.sessions, o.config).pay][sessionID]) ==> LoginExpiry(View[StoreFor(o.sessions, o.config).pay][sessionID].tok, IdP.body, Clk)
 
 //@ func (*oidcHandler).Process
 //@   requires wf: HandlerOK(o) && o.httpClient != nil && resp != nil && UrlParses(o.config.GetCallbackUri())
@@ -174,5 +192,51 @@ package authz
 //@   ensures  status: resp.Status != nil
 //@   ensures  inv: StoreInv(View, Issued)
 //@   ensures  ok_justified: RespCode(resp) == 0 ==> req.GetAttributes().GetRequest().GetHttp() != nil && Presented != "" && !IsLogoutReq(o.config, req.GetAttributes().GetRequest().GetHttp()) && !IsCallbackReq(o.config, req.GetAttributes().GetRequest().GetHttp()) && OkJustified(o.config, old(View)[StoreFor(o.sessions, o.config).pay][Presented], View[StoreFor(o.sessions, o.config).pay][Presented], old(IdP), IdP, old(Clk), Clk)
+//@   ensures  logout: req.GetAttributes().GetRequest().GetHttp() != nil && IsLogoutReq(o.config, req.GetAttributes().GetRequest().GetHttp()) ==> RespCode(resp) == 16 && IdP == old(IdP) && OnlySid(old(View), View, StoreFor(o.sessions, o.config).pay, Presented) && ( (LogoutAnswer(resp, o.config) && (Presented != "" ==> !View[StoreFor(o.sessions, o.config).pay][Presented].present) && (Presented == "" ==> View == old(View))) || (Presented != "" && IsSessionError(resp)) )
+//@   ensures  refresh_failure: RespCode(resp) != 0 && IdP.n != old(IdP.n) && req.GetAttributes().GetRequest().GetHttp() != nil && !IsCallbackReq(o.config, req.GetAttributes().GetRequest().GetHttp()) ==> !View[StoreFor(o.sessions, o.config).pay][Presented].present || IsSessionError(resp)
+//@   ensures  deny_content: RespCode(resp) != 0 ==> PlainDeny(DeniedOf(resp)) || IsSessionError(resp) || OopsDeny(DeniedOf(resp)) || BackRedirect(DeniedOf(resp), old(View)[StoreFor(o.sessions, o.config).pay][Presented].auth.url) || LogoutAnswer(resp, o.config) || LoginRedirect(DeniedOf(resp), o.config, View[StoreFor(o.sessions, o.config).pay][LastSid].auth, LastSid)
+//@   ensures  ok_forwards: RespCode(resp) == 0 ==> len(OkOf(resp).Headers) >= len(old(resp.GetOkResponse().GetHeaders())) && forall i int :: len(old(resp.GetOkResponse().GetHeaders())) <= i && i < len(OkOf(resp).Headers) ==> FwdHdrTok(OkOf(resp).Headers[i], o.config, View[StoreFor(o.sessions, o.config).pay][Presented].tok)
 //@   ensures  ok_body: RespCode(resp) == 0 ==> IsOk(resp)
 //@   ensures  deny_body: RespCode(resp) != 0 ==> IsDenied(resp) && DeniedOf(resp) != nil
+
+// ---------------------------------------------------------------------------------------------
+// the session cookie (C05)
+// ---------------------------------------------------------------------------------------------
+
+//@ func getCookieDirectives
+//@   ensures  fresh: fresh(result)
+//@   ensures  dirs: len(result) == ite(timeout >= 0, 5, 4) && result[0] == "HttpOnly" && result[1] == "Secure" && result[2] == "SameSite=Lax" && result[3] == "Path=/"
+//@   ensures  maxage: timeout >= 0 && timeout < SECOND ==> result[4] == "Max-Age=0"
+
+//@ func generateSetCookieHeader
+//@   requires timeout < SECOND
+//@   ensures  cookie: result == CookieSpec(cookieName, cookieValue, ite(timeout >= 0, 0, 0 - 1))
+
+// ---------------------------------------------------------------------------------------------
+// Handler: what the filter loop of server.Check relies on (C08). Every invocation is recorded in
+// the ghost log ProcLog/ProcCode (which filter configuration ran, with which verdict).
+// ---------------------------------------------------------------------------------------------
+
+//@ interface Handler method Process(self, ctx, req, resp) err
+//@   requires resp_nonnil: resp != nil
+//@   requires wf: HandlerReady(self)
+//@   modifies resp.HttpResponse, resp.Status, resp.GetOkResponse().Headers, ghost View, ghost IdP, ghost Clk, ghost Issued, ghost LastSid, ghost NGen, ghost NProc, ghost ProcLog, ghost ProcCode
+//@   ensures  logged: NProc == old(NProc) + 1 && ProcLog == store(old(ProcLog), old(NProc), HandlerCfg(self)) && ProcCode == store(old(ProcCode), old(NProc), ite(err == nil, RespCode(resp), 0 - 1))
+//@   ensures  status: err == nil ==> resp.Status != nil
+
+//@ func NewMockHandler
+//@   ensures  handler: result != nil && HandlerCfg(result) == cfg && HandlerReady(result) && istype(result, *mockHandler) && result.(*mockHandler).config == cfg && fresh(result.(*mockHandler))
+
+//@ func (*mockHandler).Process
+//@   requires wf: m != nil && m.log != nil && resp != nil
+//@   modifies resp.Status
+//@   ensures  noerr: result == nil
+//@   ensures  verdict: resp.Status != nil && fresh(resp.Status) && resp.Status.Code == ite(m.config.GetAllow(), 0, 7)
+
+// NewOIDCHandler wires the handler; its body (HTTP client construction, discovery) is outside the
+// contract for now: assumed, listed as such.
+//@ func NewOIDCHandler
+//@   abstractbody
+//@   modifies heap oidcv1.OIDCConfig.AuthorizationUri, heap oidcv1.OIDCConfig.TokenUri, heap oidcv1.OIDCConfig.JwksConfig, heap oidcv1.OIDCConfig_JwksFetcherConfig.JwksUri, heap oidcv1.LogoutConfig.RedirectUri
+//@   ensures  err_nil: (result1 != nil) == (result0 == nil)
+//@   ensures  handler: result1 == nil ==> HandlerCfg(result0) == cfg && HandlerReady(result0)
